@@ -173,7 +173,7 @@ Proof.
     { injection E as <-. unfold RSetContentEncodingBytes. hi. exact Hi. }
     destruct (caseInsensitiveCompare strConnection key) eqn:Eco; [|discriminate].
     destruct (beq strClose v).
-    { injection E as <-. unfold RSetConnectionClose, hSetConnectionClose. hi. exact Hi. }
+    { injection E as <-. unfold hSetConnectionClose. hi. split; [exact H1|]. split; [now apply delAll_keys_ok|]. split; [exact H3|exact H4]. }
     injection E as <-. unfold hsetNonSpecial, hResetConnectionClose.
     assert (Hk : key_ok (key, v)).
     { split; [exact Ht|]. cbn [fst]. split.
@@ -399,29 +399,32 @@ Proof.
   rewrite (drop_ows_digits _ Hr). apply rev_involutive.
 Qed.
 
+Lemma flt_opt n k s : name_is n k = false -> filter (fun e : bytes * bytes => name_is n (fst e)) (opt_line k s) = [].
+Proof. intros H. unfold opt_line. destruct s; [reflexivity|]. cbn [filter fst]. now rewrite H. Qed.
+Lemma flt_if n (b : bool) k v : name_is n k = false -> filter (fun e : bytes * bytes => name_is n (fst e)) (if_line b k v) = [].
+Proof. intros H. unfold if_line. destruct b; [|reflexivity]. cbn [filter fst]. now rewrite H. Qed.
+Lemma flt_cookies n (cs : kvs) : name_is n strSetCookie = false ->
+  filter (fun e : bytes * bytes => name_is n (fst e)) (map (fun kv : bytes * bytes => (strSetCookie, snd kv)) cs) = [].
+Proof. intros H. induction cs as [|c cs IH]; [reflexivity|]. cbn [map filter fst]. now rewrite H. Qed.
+Lemma flt_ct n (c : bool) s : name_is n strContentType = false ->
+  filter (fun e : bytes * bytes => name_is n (fst e)) (if c then opt_line strContentType s else []) = [].
+Proof. intros H. destruct c; [now apply flt_opt|reflexivity]. Qed.
+
 Lemma cl_values date r : inv r ->
   values_of "content-length" (trimmed (resp_entries date r)) = match hclb (rh r) with [] => [] | b => [b] end.
 Proof.
   intros [Hc (H1 & H2 & H3 & H4)]. rewrite values_trimmed. unfold resp_entries. cbv zeta. rewrite H3.
-  rewrite !filter_app, !map_app.
-  replace (filter (fun e => name_is "content-length" (fst e)) (opt_line strServer (rserver r))) with (@nil (bytes * bytes))
-    by (unfold opt_line; destruct (rserver r); reflexivity).
-  replace (filter (fun e => name_is "content-length" (fst e)) (if_line (negb (rnoDefDate r)) strDate date)) with (@nil (bytes * bytes))
-    by (unfold if_line; destruct (negb (rnoDefDate r)); reflexivity).
-  replace (filter (fun e => name_is "content-length" (fst e))
-             (if negb (hcl (rh r) =? 0)%Z || negb (beq (hct (rh r)) []) then opt_line strContentType (RContentType r) else []))
-    with (@nil (bytes * bytes))
-    by (destruct (negb (hcl (rh r) =? 0)%Z || negb (beq (hct (rh r)) [])); [unfold opt_line; destruct (RContentType r); reflexivity|reflexivity]).
-  replace (filter (fun e => name_is "content-length" (fst e)) (opt_line strContentEncoding (rce r))) with (@nil (bytes * bytes))
-    by (unfold opt_line; destruct (rce r); reflexivity).
-  replace (filter (fun e => name_is "content-length" (fst e)) (filter (resp_h_keep [] (rnoDefDate r)) (hh (rh r)))) with (@nil (bytes * bytes)).
-  2:{ symmetry. apply filter_none. apply Forall_forall. intros e He. apply filter_In in He as [He _].
-      rewrite Forall_forall in H2. now destruct (H2 e He) as (_ & ? & _). }
-  replace (filter (fun e => name_is "content-length" (fst e)) (map (fun kv => (strSetCookie, snd kv)) (hcookies (rh r)))) with (@nil (bytes * bytes)).
-  2:{ symmetry. apply filter_none. apply Forall_forall. intros e He. apply in_map_iff in He as (x & <- & _). reflexivity. }
-  replace (filter (fun e => name_is "content-length" (fst e)) (if_line (hclose (rh r)) strConnection strClose)) with (@nil (bytes * bytes))
-    by (unfold if_line; destruct (hclose (rh r)); reflexivity).
-  cbn [trailer_entry filter map app]. rewrite !app_nil_r.
+  rewrite !filter_app.
+  rewrite (flt_opt "content-length" strServer) by reflexivity.
+  rewrite (flt_if "content-length" _ strDate) by reflexivity.
+  rewrite (flt_ct "content-length") by reflexivity.
+  rewrite (flt_opt "content-length" strContentEncoding) by reflexivity.
+  rewrite (flt_cookies "content-length") by reflexivity.
+  rewrite (flt_if "content-length" _ strConnection) by reflexivity.
+  assert (Eh : filter (fun e : bytes * bytes => name_is "content-length" (fst e)) (filter (resp_h_keep [] (rnoDefDate r)) (hh (rh r))) = []).
+  { apply filter_none. apply Forall_forall. intros e He. apply filter_In in He as [He _].
+    rewrite Forall_forall in H2. now destruct (H2 e He) as (_ & ? & _). }
+  rewrite Eh. cbn [trailer_entry filter app]. rewrite ?app_nil_r.
   unfold opt_line. destruct (hclb (rh r)) as [|b0 b] eqn:E; [reflexivity|].
   cbn [filter fst]. change (name_is "content-length" strContentLength) with true. cbn [map snd].
   unfold clb_ok in H4. rewrite E in H4. destruct (H4 ltac:(discriminate)) as [Hd _]. now rewrite (trim_ows_digits _ Hd).
@@ -434,24 +437,15 @@ Lemma te_values date r : inv r ->
   values_of "transfer-encoding" (trimmed (resp_entries date r)) = map (fun _ => strChunked) (te_entries r).
 Proof.
   intros [Hc (H1 & H2 & H3 & H4)]. rewrite values_trimmed. unfold resp_entries. cbv zeta. rewrite H3.
-  rewrite !filter_app, !map_app.
-  replace (filter (fun e => name_is "transfer-encoding" (fst e)) (opt_line strServer (rserver r))) with (@nil (bytes * bytes))
-    by (unfold opt_line; destruct (rserver r); reflexivity).
-  replace (filter (fun e => name_is "transfer-encoding" (fst e)) (if_line (negb (rnoDefDate r)) strDate date)) with (@nil (bytes * bytes))
-    by (unfold if_line; destruct (negb (rnoDefDate r)); reflexivity).
-  replace (filter (fun e => name_is "transfer-encoding" (fst e))
-             (if negb (hcl (rh r) =? 0)%Z || negb (beq (hct (rh r)) []) then opt_line strContentType (RContentType r) else []))
-    with (@nil (bytes * bytes))
-    by (destruct (negb (hcl (rh r) =? 0)%Z || negb (beq (hct (rh r)) [])); [unfold opt_line; destruct (RContentType r); reflexivity|reflexivity]).
-  replace (filter (fun e => name_is "transfer-encoding" (fst e)) (opt_line strContentEncoding (rce r))) with (@nil (bytes * bytes))
-    by (unfold opt_line; destruct (rce r); reflexivity).
-  replace (filter (fun e => name_is "transfer-encoding" (fst e)) (opt_line strContentLength (hclb (rh r)))) with (@nil (bytes * bytes))
-    by (unfold opt_line; destruct (hclb (rh r)); reflexivity).
-  replace (filter (fun e => name_is "transfer-encoding" (fst e)) (map (fun kv => (strSetCookie, snd kv)) (hcookies (rh r)))) with (@nil (bytes * bytes)).
-  2:{ symmetry. apply filter_none. apply Forall_forall. intros e He. apply in_map_iff in He as (x & <- & _). reflexivity. }
-  replace (filter (fun e => name_is "transfer-encoding" (fst e)) (if_line (hclose (rh r)) strConnection strClose)) with (@nil (bytes * bytes))
-    by (unfold if_line; destruct (hclose (rh r)); reflexivity).
-  cbn [trailer_entry filter map app]. rewrite !app_nil_r. unfold te_entries.
+  rewrite !filter_app.
+  rewrite (flt_opt "transfer-encoding" strServer) by reflexivity.
+  rewrite (flt_if "transfer-encoding" _ strDate) by reflexivity.
+  rewrite (flt_ct "transfer-encoding") by reflexivity.
+  rewrite (flt_opt "transfer-encoding" strContentEncoding) by reflexivity.
+  rewrite (flt_opt "transfer-encoding" strContentLength) by reflexivity.
+  rewrite (flt_cookies "transfer-encoding") by reflexivity.
+  rewrite (flt_if "transfer-encoding" _ strConnection) by reflexivity.
+  cbn [trailer_entry filter app]. rewrite ?app_nil_r. unfold te_entries.
   clear H4 Hc H1 H3. induction H2 as [|[k v] h Hk Hh IH]; [reflexivity|].
   cbn [filter fst]. destruct (te_name k) eqn:Et.
   - rewrite (te_keep _ k v Et Hk). cbn [filter fst]. unfold te_name in Et. rewrite Et. cbn [map snd]. fold (te_name k) in Et.
@@ -464,10 +458,9 @@ Proof.
   intros Hl. unfold final_coding_is_chunked.
   assert (E : flat_map (split_commas []) (map (fun _ : bytes * bytes => strChunked) l) = map (fun _ => strChunked) l).
   { clear Hl. induction l as [|x l IH]; [reflexivity|]. cbn [map flat_map]. rewrite IH. reflexivity. }
-  rewrite E. destruct (rev (map (fun _ : bytes * bytes => strChunked) l)) as [|last t] eqn:Er.
-  - apply (f_equal (@length _)) in Er. rewrite rev_length, map_length in Er. destruct l; [congruence|discriminate].
-  - assert (Hin : In last (map (fun _ : bytes * bytes => strChunked) l)). { apply in_rev. rewrite Er. now left. }
-    apply in_map_iff in Hin as (_ & <- & _). reflexivity.
+  rewrite E. rewrite <- map_rev. destruct (rev l) as [|x t] eqn:Er.
+  - apply (f_equal (@length _)) in Er. rewrite rev_length in Er. destruct l; [congruence|discriminate].
+  - reflexivity.
 Qed.
 
 Definition framing_expected (m : meth) (r : resp) : framing :=
@@ -488,4 +481,95 @@ Proof.
   - destruct (H4 ltac:(discriminate)) as [Hd _]. rewrite Hd. reflexivity.
   - change (strChunked :: map (fun _ => strChunked) es) with (map (fun _ : bytes * bytes => strChunked) (e :: es)).
     now rewrite chunked_final.
+Qed.
+
+(* ------------------------------------------------------------------ facts about SetContentLength as Write uses it *)
+Lemma RStatusCode_SCL r n : RStatusCode (RSetContentLength r n) = RStatusCode r.
+Proof.
+  unfold RSetContentLength. destruct (mustSkipContentLength r); [reflexivity|].
+  destruct (0 <=? n)%Z; [reflexivity|]. destruct (n =? -1)%Z; reflexivity.
+Qed.
+Lemma mustSkip_SCL r n : mustSkipContentLength (RSetContentLength r n) = mustSkipContentLength r.
+Proof. unfold mustSkipContentLength. now rewrite RStatusCode_SCL. Qed.
+
+Definition in_scope (r : resp) : Prop := (200 <= RStatusCode r <= 999)%Z.
+
+Lemma mustSkip_scope r : in_scope r -> mustSkipContentLength r = no_body_status (RStatusCode r).
+Proof.
+  unfold in_scope, mustSkipContentLength, no_body_status, StatusOK, StatusNotModified, StatusNoContent. cbv zeta. intros H.
+  destruct (Z.ltb_spec (RStatusCode r) 100); [lia|]. destruct (Z.ltb_spec (RStatusCode r) 200); [lia|]. cbn [orb].
+  destruct (Z.eqb_spec (RStatusCode r) 200) as [E|Hn].
+  - rewrite E. reflexivity.
+  - rewrite orb_false_r. apply orb_comm.
+Qed.
+
+Lemma te_entries_del r : Forall key_ok (hh (rh r)) ->
+  filter (fun e : bytes * bytes => te_name (fst e)) (delAllArgsStable (hh (rh r)) strTransferEncoding) = [].
+Proof.
+  induction 1 as [|[k v] h Hk Hh IH]; [reflexivity|]. cbn [delAllArgsStable].
+  destruct (beq strTransferEncoding k) eqn:E; [exact IH|]. cbn [filter fst].
+  destruct (te_name k) eqn:Et; [|exact IH]. destruct Hk as (_ & _ & Hkv). specialize (Hkv Et). injection Hkv as -> _.
+  now rewrite beq_refl in E.
+Qed.
+Lemma setArg_in h k v : In (k, v) (setArg h k v).
+Proof.
+  induction h as [|[k' v'] h IH]; cbn [setArg]; [now left|]. destruct (beq k k') eqn:E; [|right; exact IH].
+  apply beq_eq in E. subst. now left.
+Qed.
+
+Lemma SCL_fixed r n : mustSkipContentLength r = false -> (0 <= n)%Z ->
+  hclb (rh (RSetContentLength r n)) = dec_digits n /\ hcl (rh (RSetContentLength r n)) = n /\
+  (Forall key_ok (hh (rh r)) -> te_entries (RSetContentLength r n) = []).
+Proof.
+  intros Hm Hn. unfold RSetContentLength. rewrite Hm. destruct (Z.leb_spec 0 n); [|lia]. hi.
+  split; [reflexivity|]. split; [reflexivity|]. intros Hk. unfold te_entries. hi. now apply te_entries_del.
+Qed.
+Lemma SCL_chunked r : mustSkipContentLength r = false ->
+  hclb (rh (RSetContentLength r (-1))) = [] /\ te_entries (RSetContentLength r (-1)) <> [].
+Proof.
+  intros Hm. unfold RSetContentLength. rewrite Hm. change (0 <=? -1)%Z with false. change (-1 =? -1)%Z with true. cbv iota. hi. split; [reflexivity|].
+  unfold te_entries. hi. intros E.
+  pose proof (setArg_in (hh (rh r)) strTransferEncoding strChunked) as Hin.
+  assert (Hf : In (strTransferEncoding, strChunked) (filter (fun e : bytes * bytes => te_name (fst e)) (setArg (hh (rh r)) strTransferEncoding strChunked))).
+  { apply filter_In. split; [exact Hin|reflexivity]. }
+  rewrite E in Hf. exact Hf.
+Qed.
+
+(* ------------------------------------------------------------------ the pieces of a stream *)
+Lemma split_buf_concat fuel : forall p, concat (split_buf fuel p) = p.
+Proof.
+  induction fuel as [|f IH]; intros p; cbn [split_buf]; [cbn; now rewrite app_nil_r|].
+  destruct (length p <=? copyBufSize)%nat; [cbn; now rewrite app_nil_r|].
+  cbn [concat]. rewrite IH. apply firstn_skipn.
+Qed.
+Lemma split_buf_small fuel : forall p, (length p <= fuel * copyBufSize + copyBufSize)%nat ->
+  Forall (fun c => (length c <= copyBufSize)%nat) (split_buf fuel p).
+Proof.
+  induction fuel as [|f IH]; intros p Hp; cbn [split_buf].
+  - constructor; [cbn in Hp; lia|constructor].
+  - destruct (Nat.leb_spec (length p) copyBufSize); [constructor; [lia|constructor]|].
+    constructor; [rewrite firstn_length; lia|]. apply IH. rewrite skipn_length. cbn [Nat.mul] in Hp. lia.
+Qed.
+Lemma concat_filter_nonempty l : concat (filter nonempty l) = concat l.
+Proof. induction l as [|c l IH]; [reflexivity|]. cbn [filter]. destruct c; cbn [nonempty concat app]; [exact IH|]. now rewrite IH. Qed.
+Lemma concat_flat_map_split ps : concat (flat_map (fun p => split_buf (length p) p) ps) = concat ps.
+Proof. induction ps as [|p ps IH]; [reflexivity|]. cbn [flat_map concat]. now rewrite concat_app, split_buf_concat, IH. Qed.
+
+Lemma reads_concat s : concat (reads_of s) = st_data s.
+Proof.
+  unfold reads_of. rewrite concat_filter_nonempty. destruct (st_kind s); try apply concat_flat_map_split. apply split_buf_concat.
+Qed.
+
+Lemma pow_hex_big : (Z.of_nat copyBufSize < 16 ^ maxHexIntChars64)%Z.
+Proof. unfold copyBufSize, maxHexIntChars64. cbn. lia. Qed.
+
+Lemma reads_chunk_ok s : Forall chunk_ok (reads_of s).
+Proof.
+  unfold reads_of. apply Forall_forall. intros c Hc. apply filter_In in Hc as [Hin Hne].
+  assert (Hs : (length c <= copyBufSize)%nat).
+  { destruct (st_kind s).
+    - apply in_flat_map in Hin as (p & _ & Hp). pose proof (split_buf_small (length p) p ltac:(unfold copyBufSize; lia)) as F. rewrite Forall_forall in F. now apply F.
+    - apply in_flat_map in Hin as (p & _ & Hp). pose proof (split_buf_small (length p) p ltac:(unfold copyBufSize; lia)) as F. rewrite Forall_forall in F. now apply F.
+    - pose proof (split_buf_small (length (st_data s)) (st_data s) ltac:(unfold copyBufSize; lia)) as F. rewrite Forall_forall in F. now apply F. }
+  split; [destruct c; [discriminate|discriminate]|]. unfold blen. pose proof pow_hex_big. lia.
 Qed.
